@@ -451,10 +451,78 @@ class Inliner:
         ast.fix_missing_locations(self.tree)
 
 
+class _Unroller(ast.NodeTransformer):
+    """for x in (A, B, C): body  ->  body[x:=A]; body[x:=B]; body[x:=C]   (literal or module-level constant tuples only)"""
+
+    def __init__(self, tables):
+        self.tables = tables
+        self.count = 0
+
+    def _elements(self, it):
+        if isinstance(it, ast.Name) and it.id in self.tables:
+            it = self.tables[it.id]
+        if isinstance(it, (ast.Tuple, ast.List)) and 1 <= len(it.elts) <= 16:
+            return it.elts
+        return None
+
+    def visit_For(self, node):
+        self.generic_visit(node)
+        elts = self._elements(node.iter)
+        if elts is None or node.orelse:
+            return node
+        simple = lambda e: isinstance(e, (ast.Constant, ast.Name)) or (isinstance(e, ast.Attribute) and simple(e.value))
+        if isinstance(node.target, ast.Name):
+            if not all(simple(e) for e in elts):
+                return node
+            targets = [node.target.id]
+            rows = [[e] for e in elts]
+        elif isinstance(node.target, ast.Tuple) and all(isinstance(t, ast.Name) for t in node.target.elts):
+            if not all(isinstance(e, (ast.Tuple, ast.List)) and len(e.elts) == len(node.target.elts) and all(simple(x) for x in e.elts) for e in elts):
+                return node
+            targets = [t.id for t in node.target.elts]
+            rows = [list(e.elts) for e in elts]
+        else:
+            return node
+        for n in ast.walk(ast.Module(body=node.body, type_ignores=[])):
+            if isinstance(n, (ast.Break, ast.Continue)):
+                # only those belonging to this loop matter; be conservative
+                return node
+            if isinstance(n, ast.Name) and n.id in targets and isinstance(n.ctx, (ast.Store, ast.Del)):
+                return node
+            if isinstance(n, (ast.FunctionDef, ast.Lambda)):
+                return node
+        out = []
+        for row in rows:
+            sub = _Subst(dict(zip(targets, row)), {})
+            for st in node.body:
+                out.append(sub.visit(copy.deepcopy(st)))
+        self.count += 1
+        return out
+
+
+def unroll_constant_loops(tree):
+    tables = {}
+    for n in tree.body:
+        if isinstance(n, ast.Assign) and len(n.targets) == 1 and isinstance(n.targets[0], ast.Name) and isinstance(n.value, (ast.Tuple, ast.List)):
+            if all(isinstance(e, (ast.Constant, ast.Name)) for e in n.value.elts):
+                tables[n.targets[0].id] = n.value
+    pinned_tables = None
+    u = _Unroller(tables)
+    u.visit(tree)
+    ast.fix_missing_locations(tree)
+    return u.count
+
+
 def normalise(tree):
     pinned = pinned_functions()
     if pinned is None:
         return tree, {"inlined": [], "kept": [], "note": "no pinned function table: helper inlining disabled"}
+    n1 = unroll_constant_loops(tree)
     inl = Inliner(tree, pinned)
     inl.run()
-    return tree, {"inlined": inl.inlined, "kept": inl.kept, "removed": getattr(inl, "removed", [])}
+    n2 = unroll_constant_loops(tree) if inl.inlined else 0
+    return tree, {"inlined": inl.inlined, "kept": inl.kept, "removed": getattr(inl, "removed", []), "unrolled": n1 + n2}
+
+
+def unroll(tree, model_tables):
+    return unroll_constant_loops(tree)
